@@ -6,7 +6,7 @@ set -e
 D=$(mktemp -d /tmp/mofun-mut.XXXXXX)
 trap 'rm -rf "$D"' EXIT
 rsync -a --exclude .git --exclude __pycache__ /repo/ "$D/"
-if [ "$1" != "-" ]; then (cd "$D" && patch -p1 -s < "$1"); else sed -i "$MUT_SED" "$D/$MUT_FILE"; fi
+if [ "$1" != "-" ]; then P=$(realpath "$1"); (cd "$D" && patch -p1 -s < "$P"); else sed -i "$MUT_SED" "$D/$MUT_FILE"; fi
 if diff -rq /repo/mofun "$D/mofun" >/dev/null; then echo "MUTATION DID NOT CHANGE ANYTHING"; exit 3; fi
 shift; ID=$1; TIER=${2:-quick}
 if [ -n "$MUT_TESTS" ]; then /verif/tools/repo_tests.sh "$D" | tail -1; fi
